@@ -118,6 +118,9 @@ func c12Generate(r *rand.Rand, thorough bool, allTargeted bool) *c12Workload {
 			{Name: "enum_meta", Number: 50001, Label: "optional", Kind: "message", Type: op + ".Meta", Comment: "Enum meta."}}},
 		&gen.Extend{Extendee: "google.protobuf.MethodOptions", Fields: []*gen.Field{
 			{Name: "method_metas", Number: 50002, Label: "repeated", Kind: "message", Type: op + ".Meta", Comment: "Method metas."}}},
+		&gen.Extend{Extendee: "google.protobuf.ExtensionRangeOptions", Fields: []*gen.Field{
+			{Name: "range_tag", Number: 50001, Label: "optional", Kind: "scalar", Type: "string", Comment: "Range tag."},
+			{Name: "range_meta", Number: 50002, Label: "optional", Kind: "message", Type: op + ".Meta", Comment: "Range meta."}}},
 	)
 	// payload candidates for a using file: its own top-level messages and those of earlier files
 	payload := func(f *gen.File) string {
@@ -189,6 +192,16 @@ func c12Generate(r *rand.Rand, thorough bool, allTargeted bool) *c12Workload {
 			for _, e := range m.Enums {
 				if r.IntN(4) == 0 {
 					e.Options = append(e.Options, gen.Opt{Name: "(" + op + ".enum_meta)", Value: metaLit(f)})
+				}
+			}
+			for i := range m.ExtRanges {
+				switch r.IntN(4) {
+				case 0:
+					m.ExtRanges[i].Options = append(m.ExtRanges[i].Options, gen.Opt{Name: "(" + op + ".range_tag)", Value: `"r"`})
+					w.features["opt-on-extension-range"] = true
+				case 1:
+					m.ExtRanges[i].Options = append(m.ExtRanges[i].Options, gen.Opt{Name: "(" + op + ".range_meta)", Value: metaLit(f)})
+					w.features["opt-on-extension-range"] = true
 				}
 			}
 			for _, n := range m.Nested {
@@ -410,7 +423,7 @@ func c12Generate(r *rand.Rand, thorough bool, allTargeted bool) *c12Workload {
 		gp, ep := "acme.depx"+n+".g.v1", "acme.depx"+n+".e.v1"
 		gf := &gen.File{Path: strings.ReplaceAll(gp, ".", "/") + "/g.proto", Syntax: "proto3", Package: gp, Header: "Only depx/e needs this file.",
 			Messages: []*gen.Message{{Name: "GT", Comment: "GT is needed by EY only.", Fields: []*gen.Field{{Name: "v", Number: 1, Kind: "scalar", Type: "string", Comment: "V."}}}},
-			Enums: []*gen.Enum{{Name: "GE", Comment: "GE is needed by EY only.", Values: []*gen.EnumValue{{Name: "GE_UNSPECIFIED", Number: 0, Comment: "Zero."}}}}}
+			Enums:    []*gen.Enum{{Name: "GE", Comment: "GE is needed by EY only.", Values: []*gen.EnumValue{{Name: "GE_UNSPECIFIED", Number: 0, Comment: "Zero."}}}}}
 		extendee := "google.protobuf." + []string{"EnumValueOptions", "OneofOptions", "ExtensionRangeOptions", "FileOptions", "MethodOptions", "MessageOptions"}[r.IntN(6)]
 		ey := &gen.Message{Name: "EY", Comment: "EY needs depx/g.", Fields: []*gen.Field{
 			{Name: "g", Number: 1, Label: "optional", Kind: "message", Type: gp + ".GT", Comment: "G."}}}
@@ -422,7 +435,7 @@ func c12Generate(r *rand.Rand, thorough bool, allTargeted bool) *c12Workload {
 		}
 		ef := &gen.File{Path: strings.ReplaceAll(ep, ".", "/") + "/e.proto", Syntax: "proto2", Package: ep, Header: "Reached only through its extension.",
 			Messages: []*gen.Message{ey, {Name: "EOnly", Comment: "EOnly is what the sole user refers to.", Fields: []*gen.Field{{Name: "v", Number: 1, Label: "optional", Kind: "scalar", Type: "bool", Comment: "V."}}}},
-			Extends: []*gen.Extend{{Extendee: extendee, Fields: []*gen.Field{{Name: "e_tag" + n, Number: 50900 + uniq, Label: "optional", Kind: "scalar", Type: "string", Comment: "A tag from a dependency."}}}}}
+			Extends:  []*gen.Extend{{Extendee: extendee, Fields: []*gen.Field{{Name: "e_tag" + n, Number: 50900 + uniq, Label: "optional", Kind: "scalar", Type: "string", Comment: "A tag from a dependency."}}}}}
 		if r.IntN(3) == 0 {
 			// the extension is declared inside a message
 			ey.Extends, ef.Extends = ef.Extends, nil
